@@ -479,14 +479,14 @@ Section Proofs.
       + apply A.
   Qed.
 
-  Lemma hash_ok_missing_go : forall q max count s ns cs,
-    hash_ok s -> hash_ok (fst (fst (missing_go q max count s ns cs))).
+  Lemma hash_ok_missing_go mfd : forall q max count s ns cs,
+    hash_ok s -> hash_ok (fst (fst (missing_go mfd q max count s ns cs))).
   Proof.
     induction q as [|[p it] rest IH]; intros max count s ns cs Hs; cbn [missing_go].
     - eapply hash_ok_same; [|exact Hs]. repeat split.
     - destruct (negb (max =? 0) && negb (count <? max)).
       { eapply hash_ok_same; [|exact Hs]. repeat split. }
-      destruct (Z.ltb max_fetches_per_depth (fget (prio_depth p) (fetches s))).
+      destruct (Z.ltb mfd (fget (prio_depth p) (fetches s))).
       { eapply hash_ok_same; [|exact Hs]. repeat split. }
       assert (Hs1 : hash_ok (set_fetches s (fadd (prio_depth p) 1 (fetches s)))).
       { eapply hash_ok_same; [|exact Hs]. repeat split. }
